@@ -16,6 +16,8 @@ _GEN_TEXT = {
             "(symBasic_is_source: for every size, every k, all int8 coordinates), Move.IsSlide and Move.Dest with Slides.Len as TransformMove calls them "
             "(isSlide_is_source, dest_is_source; the fuel 8 of Len's `for s != 0` loop is proved sufficient for every 32-bit word: GenMove.slidesLen_fuel)."),
     "C15": (" REGENERATED on every run (Generated/FuncsSym.lean) and bridged in Props/C15_gen.lean: preferMove (preferMove_is_source, all moves with Type < 256)."),
+    "C08": (" REGENERATED on every run (Generated/FuncsTak.lean) and bridged in Props/C08_gen.lean for ALL positions: Position.Hash() "
+            "(hashOf_is_source: the fold of the hash field with the four bitboards and ToMove, over the regenerated hash64/hash8)."),
     "C18": (" REGENERATED on every run (Generated/FuncsEval.lean, on top of FuncsTak/FuncsOver) and bridged in Props/C18_gen.lean, for ALL positions and ALL weight vectors: "
             "evaluateTerminal (evaluateTerminal_is_source: the position enters through WinDetails(), WhiteStones(), BlackStones(), Size(), MoveNumber() and the regenerated ToMove; "
             "the weights through the four constant indices read; WinBase is evaluated from the source) and EvaluateWinner (evaluateWinner_is_source, through the regenerated GameOver). "
